@@ -13,7 +13,7 @@ use crate::scenario::*;
 use crate::sim::CloseKind;
 
 pub const END_KINDS: &[&str] = &[
-    "quit", "close", "close-mid-line", "close-unread-output", "half-close", "invalid-utf8", "over-long-line", "kill", "pong-timeout",
+    "quit", "close", "close-mid-line", "close-unread-output", "half-close", "invalid-utf8", "over-long-line", "kill", "pong-timeout", "kill-twice",
 ];
 
 fn build(cfg: &[u16]) -> Built {
@@ -26,6 +26,8 @@ fn build(cfg: &[u16]) -> Built {
     c.pong_timeout = 5;
     // user modes every new user starts with (they take part in the counters a session end undoes)
     c.default_modes = ["", "", "", "", "O", "o", "i", "w", "Ow", "iw", "Oi"][s.pick(11)].to_string();
+    // a join quota: a refused JOIN must leave nothing behind that a session end would have to undo
+    c.max_joins = [None, None, Some(1), Some(2), Some(3)][s.pick(5)];
     let mut prof = Profile::base().with(&[
         (K::Join, 24),
         (K::ModeChan, 18),
@@ -257,6 +259,42 @@ fn end_session(eng: &mut Engine, victim: usize, kind: &str, killer: Option<usize
             let o = eng.line(k, &format!("KILL {} :enumerated fault", vnick));
             if !o.discs.is_empty() {
                 return Err(viol_from(eng, &o, kind, "KILL by an operator"));
+            }
+        }
+        "kill-twice" => {
+            // the operator's two KILLs of the same nick arrive in one write: the second one finds
+            // the victim either still there (its task has not run yet) or gone - the killer gets
+            // 401 at most, nobody else sees anything more than for one KILL
+            let Some(k) = killer else { return Ok(false) };
+            eng.log.push(format!("c{} > KILL {} :first / KILL {} :second (one write)", k, vnick, vnick));
+            eng.world.send_bytes(k, format!("KILL {} :first\r\nKILL {} :second\r\n", vnick, vnick).as_bytes());
+            eng.world.settle();
+            eng.world.settle();
+            for p in crate::sim::take_panics() {
+                if let Some(t) = p.task {
+                    let mut tr = eng.tail(30);
+                    tr.push(format!("-- handler of c{} aborted: {} at {}", t, p.msg, p.loc));
+                    return Err(Viol::new("C06.panic", "kill-twice:panic", format!("session ended by two pipelined KILLs: the handler of c{} aborted: {} at {}", t, p.msg, p.loc)).with_transcript(tr));
+                }
+            }
+            let kl = eng.world.drain(k);
+            for l in &kl {
+                eng.log.push(format!("c{} < {}", k, l));
+            }
+            eng.world.drain(victim);
+            if !eng.world.conns[victim].eof {
+                let tr = eng.tail(30);
+                return Err(Viol::new("C06.kill_ends_session", "kill-twice:not-closed", format!("{} was killed twice and is still connected", vnick)).with_transcript(tr));
+            }
+            if eng.world.conns[k].eof {
+                let tr = eng.tail(30);
+                return Err(Viol::new("C06.nothing_else_changes", "kill-twice:killer-closed", "the operator's connection was closed by its own second KILL".to_string()).with_transcript(tr));
+            }
+            eng.model.on_close(victim);
+            eng.eof_known[victim] = true;
+            eng.self_closed[victim] = true;
+            for c in 0..eng.world.conns.len() {
+                eng.world.drain(c);
             }
         }
         "pong-timeout" => {
